@@ -39,7 +39,7 @@ CDel == /\ E.op = "cdel" /\ Del(E.k)    /\ ok' = (KeysNow = E.keys)
 TraceNext == /\ ok /\ l <= Len(Trace)
              /\ (Reset \/ TSet \/ TGet \/ THas \/ TDel \/ TLen \/ CSet \/ CGet \/ CDel)
              /\ l' = l + 1
-             /\ (ok' \/ TLCSet(1, l))
+             /\ (IF ok' THEN TRUE ELSE TLCSet(1, l))
 
 \* the declarative side must keep up with the operational side on every recorded step as well
 TraceRefines == list = lru
